@@ -49,7 +49,8 @@ func checkC16(c *core.Ctx) error {
 	}
 	c.Explanation = "One clause of C16 is decided: the closed-form scalar estimators (normal, exponential, Poisson, geometric, negative binomial with fixed r) return a stationary point of the weighted log-likelihood of their own family. " +
 		"The estimator code (constructor, Initialize, NewObservation, updateEstimate) is interpreted symbolically for a generic weighted data set of two observations and a pool of one thread; the resulting estimate, a term over the observations and log-weights, is substituted into the symbolic gradient of the weighted log-likelihood built from the family's log-density (the C14 reference table), which must vanish identically. " +
-		"Nothing else of C16 (EM monotonicity, likelihood reported to hooks, numeric estimators, parameter bounds) is decided."
+		"Nothing else of C16 (EM monotonicity, likelihood reported to hooks, numeric estimators, parameter bounds) is decided." +
+		" (R1b) Configured bounds replace the estimate exactly on the paths on which the unconstrained estimate of the bounded parameter is beyond them. (R3, R4) The mixture EM step and the Baum-Welch step (with the float64 forward-backward recursion it calls) are interpreted symbolically on small models with a modelled thread pool; returned likelihood, responsibilities and re-estimated weights / initial and transition probabilities are compared, as normal forms, with the textbook E-step and M-step written down by explicit enumeration of components resp. hidden paths."
 	c.Rule("C16.R1b", "a configured parameter bound replaces the estimate exactly on the paths on which the unconstrained estimate of that parameter is beyond it", 4)
 	c.Rule("C16.R1", "the estimate computed by updateEstimate from the accumulated weighted statistics makes the gradient of the weighted log-likelihood of the estimator's own family vanish identically (interior case)", 4)
 	p := c.Pkg("statistics/scalarEstimator")
@@ -67,6 +68,8 @@ func checkC16(c *core.Ctx) error {
 	// ---- R3 the mixture EM step is the textbook E-step / M-step
 	c.Rule("C16.R3", "the mixture EM step, interpreted symbolically for two components: the returned likelihood is the data log-likelihood of the model of the iteration, the responsibilities are the component posteriors (times observation weight and multiplicity), the new weights are the normalised responsibility sums", 20)
 	checkEmStep(c, false)
+	c.Rule("C16.R4", "the Baum-Welch step, interpreted symbolically for two states and two records: the returned likelihood is the data log-likelihood of the model of the iteration, the responsibilities are the state posteriors, the new initial probabilities and transitions are the normalised expected counts", 20)
+	checkBaumWelch(c, false)
 	// ---- R2 the EM / Baum-Welch drivers report and test the likelihood returned by the step of the same iteration
 	c.Rule("C16.R2", "the EM and Baum-Welch drivers hand their hooks the likelihood returned by Step in the same iteration and its difference to the previous one, test convergence on that difference, and only then remember it", 2)
 	if g := c.Pkg("statistics/generic"); g != nil {
